@@ -6,18 +6,18 @@ HOOK_SUITES = True    # joinh_* suites read internals through verif_hooks (hook 
 RULE = ('join correspondence: (hook level, feature verif_hooks) Line::extents, LinearEquation, IntersectionParams incl. nearly parallel pairs, '
         'LineJoin::start/end/from_points with all three stroke offsets, ThickSegment bounding box and scanline intersection, on random '
         'coordinates up to +-500 and widths 0..40; (public API level) thick polylines (2..6 vertices, widths 2..12, repeated vertices, reversals, colinear and nearly colinear runs, '
-        'sharp angles, coordinates on both sides of the axes and up to +-300) through Polyline.into_styled(w).pixels() (exact order), '
+        'sharp angles, coordinates on both sides of the axes and up to +-300; bounding boxes also on a display-scale stratum +-1024 with widths up to 128) through Polyline.into_styled(w).pixels() (exact order), '
         'draw() (exact fill_solid rectangles) and the styled bounding box; thick triangles (all alignments, with and without fill, sharp and nearly '
         'flat ones) through pixels(), draw() and the styled bounding box; model = extracted Model/Join.v + Model/JoinTri.v. '
         'search p_translate (suite of C07.py) on thick triangles / polylines with coordinates within +-12 moved across the axes (join rounding ties); '
         'search p_thick_join: pixels() = draw(), all pixels inside the styled bounding box, and for strokes with segments >= 6 widths and interior '
         'angles >= 15 degrees a real-number reference: every stroke pixel lies within 1.2 * reach + 1.5 of a segment or within the miter limit '
         '(2 widths + 2) of a join, and the inner 55 percent of the stroke band along every segment is covered')
-PARTIAL = ['the input-only composition theorems (C07_join_*_translate_range) hold for vertices within +-V with V + 6*width + 8 <= 322 '
-           '(e.g. 240x240 with stroke <= 12); beyond that range the composition theorems C07_join_polyline_* / C07_join_triangle_* carry the '
+PARTIAL = ['the input-only composition theorems (C07_join_*_translate_range) hold for vertices within +-V with V + 6*width + 8 <= 8191 '
+           '(e.g. coordinates within +-7000 with stroke <= 197; Proofs/JoinPointBound.v ports the argument of C08_join_point_bound); beyond that range the composition theorems C07_join_polyline_* / C07_join_triangle_* carry the '
            'computable hypotheses poly_hyps / tri_hyps (no used rounded intersection reaches the saturating cast; segment corners within +-2^29), '
            'which the model oracle evaluates on every generated case (suites join_poly_hyp, join_tri_hyp: true on all inputs up to +-2^13, '
-           'widths <= 64); a proof of them up to +-2^13 is OPEN (Proofs/JoinTri.v, last comment)']
+           'widths <= 64); beyond +-8191 for the edge lines the unbounded model no longer equals the i32 arithmetic of the code anyway (Proofs/JoinTri.v, last comment)']
 ASSUMPTIONS = ['join theorems: the saturating cast of round_div is modelled; theorems that go through it assume it is not reached '
                '(isect_nosat / join_nosat / poly_nosat, computable predicates of the input; guaranteed for all line pairs within +-511 by '
                'C07_join_intersection_translate); all other i32/i64 arithmetic of the join code is modelled unbounded: model and code agree '
@@ -105,6 +105,17 @@ def cases(tier, rng):
         al, fl = rng.randrange(3), rng.randrange(2)
         yield J(rng.choice(['join_tri_pixels', 'join_tri_pixels', 'join_tri_rects']), w, al, fl, *t)
         yield J('join_tri_bbox', w, al, fl, *t)
+        yield J('join_tri_fused', w, al, fl, *t)      # C01_join: model-side evaluation of the hypothesis jt_fused
+    # display-scale stratum (+-1024, widths up to 128): bounding boxes are cheap on the model side, pixel suites are not
+    nb = 200 if tier == 'quick' else 4000
+    for k in range(nb):
+        pts, t, w = big_poly(rng), big_tri(rng), big_width(rng)
+        yield J('join_poly_bbox', w, *flat(pts))
+        yield J('join_tri_bbox', w, rng.randrange(3), 0, *flat(t))
+        if k % (50 if tier == 'quick' else 40) == 0:
+            sm = [(x // 4, y // 4) for x, y in pts]          # +-256: a few thousand pixels per case
+            yield J('join_poly_pixels', min(w, 40), 0, 0, *flat(sm))
+            yield J('join_tri_pixels', min(w, 40), rng.randrange(3), rng.randrange(2), *flat([(x // 4, y // 4) for x, y in t]))
     # the hypotheses of the composition theorems hold on display-scale input (model-side evaluation; the implementation
     # side answers the constant 1): coordinates within +-2^13 before and after the move, widths 2..64
     for _ in range(n):
@@ -126,6 +137,20 @@ def cases(tier, rng):
         yield J('join_tri_hyp', rng.randrange(0, 65), rng.randrange(3), *d, *t)
     if HOOK_SUITES:
         yield from hook_cases(tier, rng, 6 * n)
+
+
+def big_poly(rng):
+    """display-scale stratum: vertices within +-1024"""
+    n = rng.choice([2, 3, 3, 4])
+    return [(rng.randrange(-1024, 1025), rng.randrange(-1024, 1025)) for _ in range(n)]
+
+
+def big_tri(rng):
+    return [(rng.randrange(-1024, 1025), rng.randrange(-1024, 1025)) for _ in range(3)]
+
+
+def big_width(rng):
+    return rng.choice([2, 3, 5, 8, 16, 33, 64, 100, 128, rng.randrange(2, 129)])
 
 
 def tri_pts(rng):
@@ -192,6 +217,9 @@ def search(tier, rng):
         w = rng.choice([2, 3, 3, 4, 5, 6, 7, 8, 10, 12])
         yield J('p_thick_join poly', w, *flat(tame_path(rng, w, rng.choice([2, 3, 3, 4, 5]))))
         yield J('p_thick_join tri', w, rng.randrange(3), *flat(tame_path(rng, w, 3, closed=True)))
+        if rng.random() < 0.2:   # display-scale stratum, implementation only: +-1024, widths up to 128
+            yield J('p_thick_join poly', big_width(rng), *flat(big_poly(rng)))
+            yield J('p_thick_join tri', big_width(rng), rng.randrange(3), *flat(big_tri(rng)))
         if rng.random() < 0.5:   # anything: pixels() = draw(), inside the styled bounding box
             yield J('p_thick_join poly', width(rng), *flat(poly_pts(rng)))
             yield J('p_thick_join tri', width(rng), rng.randrange(3), *flat(tri_pts(rng)))
